@@ -49,7 +49,15 @@ KINDS = {
     "uidx": "CREATE UNIQUE INDEX i2 ON {T} (c);",
     "only": "ALTER TABLE ONLY {T} ADD CONSTRAINT c2 CHECK (c > 0);",
     "ifex": "ALTER TABLE IF EXISTS {T} ADD e int;",
+    # statements aimed at a column that an earlier ADD created, and an index whose directions are written in lower case
+    "dropd": "ALTER TABLE {T} DROP COLUMN d;",
+    "rend": "ALTER TABLE {T} RENAME COLUMN d TO dd;",
+    "idxl": "CREATE INDEX i3 ON {T} (c desc, a asc, b);",
+    "fk1": "ALTER TABLE {T} ADD FOREIGN KEY ({b}) REFERENCES o (x);",
 }
+MODES = ["sql", "bigquery"]
+D3Q_KINDS = ["add", "ifex", "dropd", "rend", "drop", "rename", "fk1", "modcol"]
+D3Q_TABS = ["s1.t", "t"]
 D3_KINDS = ["add", "drop", "rename", "modcol", "uq1", "def", "fk", "idx"]
 D3_TABS = ["s1.t", "s2.t", "t"]
 
@@ -75,7 +83,9 @@ def stmt(op):
 
 
 def bounds(tier):
-    return {"tables": 5, "kinds": len(KINDS), "spellings": "6 x 6 (schema x table) x 3 (column)", "depth": 3 if tier == "thorough" else 2}
+    return {"tables": 5, "kinds": len(KINDS), "spellings": "6 x 6 (schema x table) x 3 (column)", "output_modes": MODES,
+            "depth": "1 (all spellings), 2 (all kind/target pairs x 2 modes), 3 (%s)" % (
+                "24^3 + 16^3 triples" if tier == "thorough" else "16^3 triples over the column-list kinds on 2 tables")}
 
 
 def gen_cases(tier):
@@ -95,6 +105,7 @@ def gen_cases(tier):
             for k in KINDS:
                 cases.append({"tabs": tabs, "ops": [[k, tgt, "asis", "asis", "asis"]]})
                 cases.append({"tabs": tabs, "ops": [[k, tgt, "up", "low", "up"]]})
+                cases.append({"tabs": tabs, "ops": [[k, tgt, "asis", "asis", "asis"]], "mode": "bigquery"})
     # undefined targets must raise
     for tabs in (full, ["s1.t"], ["t"], ["s1.t", "s2.t"]):
         for und in ("zz", "s9.t", "s1.zz", "s9.zz", "t", "s1.t", "u"):
@@ -104,10 +115,21 @@ def gen_cases(tier):
                 continue
             for k in KINDS:
                 cases.append({"tabs": tabs, "ops": [[k, und, "asis", "asis", "asis"]], "undefined": True})
+            # ... also when an earlier statement has just resolved a same-named table of another schema
+            for k in ("add", "drop", "idx", "uq1"):
+                for first in tabs:
+                    for mode in MODES:
+                        cases.append({"tabs": tabs, "ops": [["add", first, "asis", "asis", "asis"], [k, und, "asis", "asis", "asis"]],
+                                      "undefined": True, "mode": mode})
     # depth 2: all ordered pairs (kind, target)
     singles = [[k, t] for k in KINDS for t in TKEYS]
     for a, b in itertools.product(singles, repeat=2):
         cases.append({"tabs": full, "ops": [a + ["asis", "asis", "asis"], b + ["up", "dq", "dq"] if (len(cases) % 2) else b + ["asis", "asis", "asis"]]})
+        cases.append({"tabs": full, "ops": [a + ["asis", "asis", "asis"], b + ["asis", "asis", "asis"]], "mode": "bigquery"})
+    # depth 3: every triple over the statements that edit the column list (incl. ones aimed at a column added earlier)
+    s3q = [[k, t] for k in D3Q_KINDS for t in D3Q_TABS]
+    for tri in itertools.product(s3q, repeat=3):
+        cases.append({"tabs": ["s1.t", "t", "u"], "ops": [x + ["asis", "asis", "asis"] for x in tri]})
     if tier == "thorough":
         s3 = [[k, t] for k in D3_KINDS for t in D3_TABS]
         for tri in itertools.product(s3, repeat=3):
@@ -130,16 +152,17 @@ def apply(m, op):
     b = spell("b", hc)
     if k in ("add", "ifex"):
         new = "d" if k == "add" else "e"
-        A.setdefault("columns", []).append([new, None])
         if new not in names:
             cols.append([new, None, None, False])
-    elif k == "drop":
-        if nm(b) in names:
-            del cols[names.index(nm(b))]
-    elif k == "rename":
-        if nm(b) in names:
-            cols[names.index(nm(b))][0] = "bb"
-        A.setdefault("renamed_columns", []).append({"from": b, "to": "bb"})
+    elif k in ("drop", "dropd"):
+        x = nm(b) if k == "drop" else "d"
+        if x in names:
+            del cols[names.index(x)]
+    elif k in ("rename", "rend"):
+        x, to = (b, "bb") if k == "rename" else ("d", "dd")
+        if nm(x) in names:
+            cols[names.index(nm(x))][0] = to
+        A.setdefault("renamed_columns", []).append({"from": x, "to": to})
     elif k in ("modcol", "mod", "altcol"):
         if nm(b) in names:
             i = names.index(nm(b))
@@ -165,6 +188,12 @@ def apply(m, op):
         for n_, r_ in (("a", "x"), ("c", "y")):
             A.setdefault("columns", []).append([n_, r_])
             # (an ALTER ... FOREIGN KEY on an existing column adds no new column)
+    elif k == "fk1":
+        A.setdefault("columns", []).append([b, "x"])
+        if nm(b) not in names:
+            m["undef"] = True  # a key over a column that no longer exists: the statement does not say what happens
+    elif k == "idxl":
+        m["index"].append({"index_name": "i3", "unique": False, "columns": ["c", "a", "b"], "orders": ["DESC", "ASC", "ASC"]})
     elif k == "idx":
         m["index"].append({"index_name": "i1", "unique": False, "columns": ["a", "b"], "orders": ["ASC", "DESC"]})
     elif k == "uidx":
@@ -182,7 +211,10 @@ def observe(t):
     if "defaults" in al:
         o["alter"]["defaults"] = [{"constraint_name": d.get("constraint_name"), "columns": [c for c in (d.get("columns") or []) if c != ","], "value": str(d.get("value"))} for d in al["defaults"]]
     if "columns" in al:
-        o["alter"]["columns"] = [[c.get("name"), (c.get("references") or {}).get("column")] for c in al["columns"]]
+        # only the foreign-key entries: how plainly added columns are echoed here is not part of the statement
+        fks = [[c.get("name"), (c.get("references") or {}).get("column")] for c in al["columns"] if c.get("references")]
+        if fks:
+            o["alter"]["columns"] = fks
     for ix in t.get("index", []):
         o["index"].append({"index_name": ix.get("index_name"), "unique": ix.get("unique"), "columns": ix.get("columns"),
                            "orders": [d.get("order") for d in ix.get("detailed_columns", [])]})
@@ -208,8 +240,10 @@ def evaluate(case):
     tabs = case["tabs"]
     base_ddl = "\n".join(TABLES[x][2] for x in tabs) + "\n"
     ddl = base_ddl + "\n".join(stmt(op) for op in case["ops"])
-    r0 = run_ddl(base_ddl)
-    r = run_ddl(ddl)
+    mode = case.get("mode", "sql")
+    skey = "dataset" if mode == "bigquery" else "schema"
+    r0 = run_ddl(base_ddl, run={"output_mode": mode})
+    r = run_ddl(ddl, run={"output_mode": mode})
     diffs = []
     if case.get("undefined"):
         if r[0] != "exc":
@@ -230,9 +264,11 @@ def evaluate(case):
             if res[i] != res0[i]:
                 diffs.append(diff("table %s (not addressed)" % x, "other-table-changed", short(res0[i], 200), short(res[i], 200)))
             continue
+        if models[x].pop("undef", False):
+            continue
         got, want = norm_obs(observe(res[i])), norm_obs(models[x])
-        if res[i].get("table_name") != res0[i].get("table_name") or res[i].get("schema") != res0[i].get("schema"):
-            diffs.append(diff("table %s identity" % x, "target-identity-changed", [res0[i].get("schema"), res0[i].get("table_name")], [res[i].get("schema"), res[i].get("table_name")]))
+        if res[i].get("table_name") != res0[i].get("table_name") or res[i].get(skey) != res0[i].get(skey):
+            diffs.append(diff("table %s identity" % x, "target-identity-changed", [res0[i].get(skey), res0[i].get("table_name")], [res[i].get(skey), res[i].get("table_name")]))
         if got != want:
             for part in ("cols", "alter", "index"):
                 if got[part] != want[part]:
@@ -241,14 +277,15 @@ def evaluate(case):
                         sym = "target-unchanged"
                     diffs.append(diff("table %s %s after %s" % (x, part, " ; ".join(stmt(o) for o in case["ops"] if o[1] == x)), sym, want[part], got[part]))
                     break
-    return {"diffs": diffs, "nontrivial": len(tabs) >= 2, "outcome": json.dumps(sorted(touched)) + str(len(case["ops"])),
+    return {"diffs": diffs, "nontrivial": len(tabs) >= 2, "outcome": json.dumps(sorted(touched)) + str(len(case["ops"])) + mode,
             "states": len(case["ops"]) + 1, "transitions": len(case["ops"]), "traces": 1}
 
 
 def describe(case):
-    return {"tables": case["tabs"], "statements": [stmt(op) for op in case["ops"]], "undefined_target": bool(case.get("undefined"))}
+    return {"tables": case["tabs"], "statements": [stmt(op) for op in case["ops"]], "undefined_target": bool(case.get("undefined")),
+            "output_mode": case.get("mode", "sql")}
 
 
 def snippet(case):
     base_ddl = "\n".join(TABLES[x][2] for x in case["tabs"]) + "\n"
-    return _snip(base_ddl + "\n".join(stmt(op) for op in case["ops"]))
+    return _snip(base_ddl + "\n".join(stmt(op) for op in case["ops"]), run={"output_mode": case.get("mode", "sql")})
